@@ -152,7 +152,8 @@ func Exec(names []string, bodies map[string]func(), prefix []string, maxSteps in
 		if !pick.done {
 			st.Site = pick.site
 		}
-		atLock := !pick.done && strings.HasPrefix(pick.site, "blocked:")
+		// waiting sites: in front of a held lock, or polling for something another worker must provide
+		atLock := !pick.done && (strings.HasPrefix(pick.site, "blocked:") || strings.HasSuffix(pick.site, ".poll"))
 		if atLock && prevSite == pick.site {
 			// re-tried a lock that is still held: nothing happened
 			st.Blocked = true
